@@ -402,11 +402,12 @@ const HOPS: [HOp; 8] = [HOp::Reg1, HOp::Reg1NewPort, HOp::Reg2, HOp::Unreg1, HOp
 /// bound with the values of that registration; if the daemon did not hold the instance name there,
 /// nothing naming it is sent in a response before three probes 250 ms apart and 250 ms of quiet;
 /// second announcement one second after the first.
-fn run_hist(seq: &[HOp], jitter: u64, trace: bool) -> CaseResult {
+fn run_hist(seq: &[HOp], jitter: u64, loopback: bool, trace: bool) -> CaseResult {
     let mut res = CaseResult::default();
     let mut table = vec![v4("sim0", IF0, "10.0.0.1", 24)];
     let mut w = World::one(table.clone());
     w.trace = trace;
+    w.loopback = w.loopback || loopback;
     w.ds[0].ctl.set_rng_default(jitter);
     w.ds[0].h.set_ip_check_interval(1).unwrap();
     w.poke(0);
@@ -646,10 +647,10 @@ pub fn check(tier: &str) -> i32 {
     let hj = [0u64, 137, 249];
     let hist = FnPart {
         name: "registration-histories".into(),
-        rule: format!("every sequence of <= {hdepth} events over [register S1, re-register S1 with another port, register S2 (same host), unregister S1, unregister S2, idle 0.3 s, idle 2 s, a second interface appears] x 3 jitters, queried every 250 ms, 4.3 s horizon; per (service, interface, registration): announced within the bound with that registration's values, not answered before three probes when the name was not held, second announcement after 1 s; non-trivial = at least one registration"),
-        n: nhs * 3,
-        describe: Box::new(move |i| format!("{:?} jitter {}", hseq(i / 3), hj[(i % 3) as usize])),
-        run: Box::new(move |i, tr| run_hist(&hseq(i / 3), hj[(i % 3) as usize], tr)),
+        rule: format!("every sequence of <= {hdepth} events over [register S1, re-register S1 with another port, register S2 (same host), unregister S1, unregister S2, idle 0.3 s, idle 2 s, a second interface appears] x 3 jitters x (own multicasts not heard / heard, as with the crate's default IP_MULTICAST_LOOP), queried every 250 ms, 4.3 s horizon; per (service, interface, registration): announced within the bound with that registration's values, not answered before three probes when the name was not held, second announcement after 1 s; non-trivial = at least one registration"),
+        n: nhs * 6,
+        describe: Box::new(move |i| format!("{:?} jitter {}{}", hseq(i / 6), hj[(i % 3) as usize], if i % 6 >= 3 { " multicast-loop" } else { "" })),
+        run: Box::new(move |i, tr| run_hist(&hseq(i / 6), hj[(i % 3) as usize], i % 6 >= 3, tr)),
     };
     rep.run_part(&hist, Duration::from_secs(if thorough { 3000 } else { 50 }));
     rep.require("registration-histories", "announced_within_bound");
